@@ -3,59 +3,145 @@
   of `_run_antismash`.
 -/
 import ASV.Proofs.WriteSafety
+import ASV.Proofs.PosixPath
 namespace ASV.WriteSafety
+open ASV.PosixPath (Path Plain)
 
 /-! ### the acceptance test -/
 
-theorem ignorePatterns_eq (l : Option String) (e : Entry) : ignorePatterns l e = !allowed l e := by
+theorem plainName_iff (n : Path) : plainName n = true ↔ Plain n := by
+  simp [plainName, Plain, and_assoc]
+
+/-- the invariants of `PrepIn.WF`, unpacked -/
+theorem wf_unpack (p : PrepIn) (wf : p.WF = true) :
+    PosixPath.isabs p.cwd.toList = true ∧ p.name.toList ≠ [] ∧
+      ∀ es, p.target = .dir es → ∀ e ∈ es, Plain e.name.toList := by
+  simp only [PrepIn.WF, Bool.and_eq_true, Bool.not_eq_true', List.isEmpty_eq_false_iff] at wf
+  refine ⟨wf.1.1, wf.1.2, ?_⟩
+  intro es ht e he
+  have h := wf.2
+  rw [ht] at h
+  simp only [List.all_eq_true] at h
+  exact (plainName_iff _).1 (h e he)
+
+/-- `entry.endswith('/input')` is a test on the entry's own name -/
+theorem input_clause (p : PrepIn) (e : Entry) (hname : p.name.toList ≠ []) (hn : Plain e.name.toList) :
+    "/input".toList.isSuffixOf (entryPath p e) = (e.name == "input") := by
+  have h := PosixPath.join_endswith_iff p.name.toList e.name.toList "input".toList hname hn (by decide)
+  have e1 : "/input".toList = '/' :: "input".toList := by decide
+  rw [entryPath, e1]
+  by_cases hc : e.name = "input"
+  · have : e.name.toList = "input".toList := by rw [hc]
+    rw [h.2 this]
+    exact (beq_iff_eq.2 hc).symm
+  · have : ¬ e.name.toList = "input".toList := fun x => hc (String.toList_inj.1 x)
+    have h' : ('/' :: "input".toList).isSuffixOf (PosixPath.join p.name.toList e.name.toList) = false := by
+      cases hb : ('/' :: "input".toList).isSuffixOf (PosixPath.join p.name.toList e.name.toList) with
+      | false => rfl
+      | true => exact absurd (h.1 hb) this
+    rw [h']
+    exact (beq_eq_false_iff_ne.2 hc).symm
+
+/-- the path-equality test of the own-log clause is the identity of what the paths denote -/
+theorem log_clause (p : PrepIn) (e : Entry) (hcwd : PosixPath.isabs p.cwd.toList = true) :
+    (p.logfile != "" && PosixPath.abspath p.cwd.toList (entryPath p e) ==
+        PosixPath.abspath p.cwd.toList p.logfile.toList) = isLogFile p e := by
+  unfold isLogFile
+  congr 1
+  have : PosixPath.abspath p.cwd.toList (entryPath p e) = PosixPath.abspath p.cwd.toList p.logfile.toList ↔
+      denotes p.cwd.toList (entryPath p e) = denotes p.cwd.toList p.logfile.toList := by
+    unfold PosixPath.abspath
+    rw [PosixPath.normpath_abs_eq_iff _ _ (PosixPath.isabs_absArg _ _ hcwd) (PosixPath.isabs_absArg _ _ hcwd)]
+    simp [denotes, Prod.ext_iff]
+  by_cases h : denotes p.cwd.toList (entryPath p e) = denotes p.cwd.toList p.logfile.toList
+  · simp [h, this.2 h]
+  · have : ¬ PosixPath.abspath p.cwd.toList (entryPath p e) = PosixPath.abspath p.cwd.toList p.logfile.toList :=
+      fun x => h (this.1 x)
+    simp [h, this]
+
+theorem ignorePatterns_eq (p : PrepIn) (e : Entry) (hcwd : PosixPath.isabs p.cwd.toList = true)
+    (hname : p.name.toList ≠ []) (hn : Plain e.name.toList) : ignorePatterns p e = !allowed p e := by
   unfold ignorePatterns allowed
-  by_cases h1 : (e.name == "input" && e.isDir) = true <;> by_cases h2 : (l == some e.name) = true <;>
+  rw [input_clause p e hname hn, log_clause p e hcwd]
+  by_cases h1 : (e.name == "input" && e.isDir) = true <;> by_cases h2 : isLogFile p e = true <;>
     simp [h1, h2]
 
-theorem others_empty_iff (l : Option String) (es : Dir) :
-    (es.filter (ignorePatterns l)).isEmpty = es.all (allowed l) := by
-  induction es with
-  | nil => rfl
-  | cons e es ih =>
-    simp only [List.filter_cons, List.all_cons, ignorePatterns_eq]
-    cases allowed l e <;> simp [← ih]
+/-- the log file sits directly in the output directory under the plain name `m`: an entry is the log
+    file exactly when its name *is* `m` (a name that merely begins `m`, or that `m` begins with, is not) -/
+theorem isLogFile_sibling (p : PrepIn) (e : Entry) (m : Path) (hcwd : PosixPath.isabs p.cwd.toList = true)
+    (hname : p.name.toList ≠ []) (hn : Plain e.name.toList) (hm : Plain m)
+    (hl : p.logfile.toList = PosixPath.join p.name.toList m) :
+    isLogFile p e = true ↔ e.name.toList = m := by
+  have hne : (p.logfile != "") = true := by
+    rw [bne_iff_ne]
+    intro h0
+    have hj : PosixPath.join p.name.toList m ≠ [] := by
+      rw [PosixPath.join_plain _ m hname hm]; split <;> simp [hname]
+    exact hj (by rw [← hl, h0]; rfl)
+  rw [← log_clause p e hcwd, hne, Bool.true_and, beq_iff_eq, hl, entryPath]
+  exact PosixPath.abspath_entry_eq_iff _ _ _ _ hcwd hname hn hm
 
-theorem prepare_dir (p : PrepIn) (es : Dir) (ht : p.target = .dir es) :
+/-- the log file sits one level further down, inside the entry: the entry (the directory logging
+    created for it, or any directory above the log file) is not the log file -/
+theorem isLogFile_above (p : PrepIn) (e : Entry) (m : Path) (hcwd : PosixPath.isabs p.cwd.toList = true)
+    (hname : p.name.toList ≠ []) (hn : Plain e.name.toList) (hm : Plain m)
+    (hl : p.logfile.toList = PosixPath.join (entryPath p e) m) :
+    isLogFile p e = false := by
+  cases h : isLogFile p e with
+  | false => rfl
+  | true =>
+    rw [← log_clause p e hcwd] at h
+    simp only [Bool.and_eq_true, beq_iff_eq] at h
+    rw [hl, entryPath] at h
+    exact absurd h.2 (PosixPath.abspath_entry_ne_deeper _ _ _ _ hcwd hname hn hm)
+
+theorem others_empty_iff (p : PrepIn) (hcwd : PosixPath.isabs p.cwd.toList = true)
+    (hname : p.name.toList ≠ []) : ∀ (es : Dir), (∀ e ∈ es, Plain e.name.toList) →
+    (es.filter (ignorePatterns p)).isEmpty = es.all (allowed p)
+  | [], _ => rfl
+  | e :: es, h => by
+      have ih := others_empty_iff p hcwd hname es fun x hx => h x (List.mem_cons_of_mem _ hx)
+      simp only [List.filter_cons, List.all_cons,
+        ignorePatterns_eq p e hcwd hname (h e (List.mem_cons_self ..))]
+      cases allowed p e <;> simp [← ih]
+
+theorem prepare_dir (p : PrepIn) (wf : p.WF = true) (es : Dir) (ht : p.target = .dir es) :
     prepareOutputDir p =
-      if reuseMode p || es.all (allowed p.logName) then
+      if reuseMode p || es.all (allowed p) then
         ⟨(es.filter fun e => isRegionGbk e.name).map (fun e => .remove e.name), none,
          .dir (es.filter fun e => !isRegionGbk e.name)⟩
       else ⟨[], some inputError, .dir es⟩ := by
-  simp only [prepareOutputDir, ht, others_empty_iff]
-  cases reuseMode p <;> cases es.all (allowed p.logName) <;> simp
+  obtain ⟨hcwd, hname, hpl⟩ := wf_unpack p wf
+  simp only [prepareOutputDir, ht, others_empty_iff p hcwd hname es (hpl es ht)]
+  cases reuseMode p <;> cases es.all (allowed p) <;> simp
 
-theorem prepare_accepts_iff (p : PrepIn) : (prepareOutputDir p).err = none ↔ specAccepts p = true := by
+theorem prepare_accepts_iff (p : PrepIn) (wf : p.WF = true) : (prepareOutputDir p).err = none ↔ specAccepts p = true := by
   cases ht : p.target with
   | absent => simp [prepareOutputDir, specAccepts, ht]
   | file => simp [prepareOutputDir, specAccepts, ht]
   | dir es =>
-    rw [prepare_dir p es ht]
+    rw [prepare_dir p wf es ht]
     simp only [specAccepts, ht]
-    cases reuseMode p || es.all (allowed p.logName) <;> simp
+    cases reuseMode p || es.all (allowed p) <;> simp
 
-theorem prepare_refused (p : PrepIn) (h : specAccepts p = false) :
+theorem prepare_refused (p : PrepIn) (wf : p.WF = true) (h : specAccepts p = false) :
     prepareOutputDir p = ⟨[], some inputError, p.target⟩ := by
   cases ht : p.target with
   | absent => simp [specAccepts, ht] at h
   | file => simp [prepareOutputDir, ht]
   | dir es =>
-    rw [prepare_dir p es ht]
+    rw [prepare_dir p wf es ht]
     simp only [specAccepts, ht] at h
     simp [h]
 
-theorem prepare_accepted (p : PrepIn) (h : specAccepts p = true) :
+theorem prepare_accepted (p : PrepIn) (wf : p.WF = true) (h : specAccepts p = true) :
     (prepareOutputDir p).err = none ∧ (prepareOutputDir p).target = .dir (preparedDir p) ∧
       ∀ ev ∈ (prepareOutputDir p).trace, ev = .mkdir ∨ ∃ n, ev = .remove n := by
   cases ht : p.target with
   | absent => simp [prepareOutputDir, preparedDir, ht]
   | file => simp [specAccepts, ht] at h
   | dir es =>
-    rw [prepare_dir p es ht]
+    rw [prepare_dir p wf es ht]
     simp only [specAccepts, ht] at h
     simp only [h, if_true, preparedDir, ht, true_and]
     intro ev hev
@@ -63,11 +149,11 @@ theorem prepare_accepted (p : PrepIn) (h : specAccepts p = true) :
     obtain ⟨e, _, rfl⟩ := hev
     exact Or.inr ⟨e.name, rfl⟩
 
-theorem prepare_meets_spec (p : PrepIn) : specPrepare p (prepareOutputDir p) = true := by
+theorem prepare_meets_spec (p : PrepIn) (wf : p.WF = true) : specPrepare p (prepareOutputDir p) = true := by
   unfold specPrepare
   cases ha : specAccepts p with
   | false =>
-    rw [prepare_refused p ha]
+    rw [prepare_refused p wf ha]
     simp [refusedUntouched]
   | true =>
     simp only [if_true]
@@ -76,7 +162,7 @@ theorem prepare_meets_spec (p : PrepIn) : specPrepare p (prepareOutputDir p) = t
     | file => simp [specAccepts, ht] at ha
     | dir es =>
       simp only [specAccepts, ht] at ha
-      rw [prepare_dir p es ht]
+      rw [prepare_dir p wf es ht]
       simp [acceptedCleanup, ht, ha]
 
 /-! ### the region-file pattern -/
@@ -129,38 +215,38 @@ theorem dropWhile_prefix {α} (q : α → Bool) (a b : List α) (h : ∀ x ∈ a
     simp only [List.cons_append, List.dropWhile_cons, hx, if_true]
     exact ih fun y hy => h y (List.mem_cons_of_mem _ hy)
 
-theorem pipeline_refused (p : PipeIn) (h : specAccepts p.prep = false) :
+theorem pipeline_refused (p : PipeIn) (wf : p.prep.WF = true) (h : specAccepts p.prep = false) :
     runPipeline p = ⟨[], some inputError, p.prep.target⟩ := by
-  simp [runPipeline, prepare_refused p.prep h]
+  simp [runPipeline, prepare_refused p.prep wf h]
 
-theorem pipeline_fault (p : PipeIn) (ha : specAccepts p.prep = true) (hf : p.results.hasFault = true) :
+theorem pipeline_fault (p : PipeIn) (wf : p.prep.WF = true) (ha : specAccepts p.prep = true) (hf : p.results.hasFault = true) :
     ∃ e, runPipeline p =
       ⟨(prepareOutputDir p.prep).trace ++
         .prepared :: (writeToFile p.results (.path p.jsonName) (preparedDir p.prep)).trace,
        some e, .dir (preparedDir p.prep)⟩ := by
-  obtain ⟨h1, h2, _⟩ := prepare_accepted p.prep ha
+  obtain ⟨h1, h2, _⟩ := prepare_accepted p.prep wf ha
   obtain ⟨w1, w2, _⟩ := writeToFile_fault p.results (.path p.jsonName) (preparedDir p.prep) hf
   obtain ⟨e, he⟩ := Option.isSome_iff_exists.1 w1
   exact ⟨e, by simp [runPipeline, h1, h2, he, w2]⟩
 
-theorem pipeline_clean (p : PipeIn) (ha : specAccepts p.prep = true) (hf : p.results.hasFault = false) :
+theorem pipeline_clean (p : PipeIn) (wf : p.prep.WF = true) (ha : specAccepts p.prep = true) (hf : p.results.hasFault = false) :
     runPipeline p =
       ⟨(prepareOutputDir p.prep).trace ++
         .prepared :: (convertRecords 0 p.results.records p.results.results).trace ++
           [.openW p.jsonName, .write p.jsonName, .annotated, .outputsWritten],
        none, .dir ((preparedDir p.prep).withFile p.jsonName (expectedFull p.results))⟩ := by
-  obtain ⟨h1, h2, _⟩ := prepare_accepted p.prep ha
+  obtain ⟨h1, h2, _⟩ := prepare_accepted p.prep wf ha
   have hw := writeToFile_clean p.results (.path p.jsonName) (preparedDir p.prep) hf
   simp [runPipeline, h1, h2, hw, emit, expectedAfter]
 
 
 /-- everything that happens in an accepted run before `write_to_file` opens the results file (or
     fails): directory clean-up, the stage marker, conversions, an error log -/
-theorem pipeline_prefix_events (p : PipeIn) (ha : specAccepts p.prep = true) (tr : List Ev)
+theorem pipeline_prefix_events (p : PipeIn) (wf : p.prep.WF = true) (ha : specAccepts p.prep = true) (tr : List Ev)
     (htr : ∀ ev ∈ tr, ev.isConversion = true ∨ ev = .logErr) :
     ∀ ev ∈ (prepareOutputDir p.prep).trace ++ Ev.prepared :: tr,
       ev ≠ .annotated ∧ ev ≠ .outputsWritten ∧ (∀ n, ev ≠ .openW n) ∧ (∀ n, ev ≠ .write n) := by
-  obtain ⟨_, _, hp⟩ := prepare_accepted p.prep ha
+  obtain ⟨_, _, hp⟩ := prepare_accepted p.prep wf ha
   intro ev hev
   simp only [List.mem_append, List.mem_cons] at hev
   rcases hev with hev | rfl | hev
